@@ -189,12 +189,25 @@ pub fn run_c05(rep: &mut Report, tier: &str, seed: u64) -> Result<(), String> {
         "the second pass T_c2(y) vs the Lean model of read-then-write applied to y; non-trivial = every case",
     );
     for i in 0..n {
-        let doc = match i % 4 {
+        let mut doc = match i % 4 {
             0 => crate::c09::doc_xml(&crate::c09::gen_doc(&mut rng, 4)),
             _ => svgdx_doc(&mut rng, true),
         };
-        let c1 = random_cfg(&mut rng);
-        let c2 = random_cfg(&mut rng);
+        // past failures first, then (1 in 8) a root that declares a namespace: SVG's, a foreign one, none
+        const PAST: [&str; 3] = [
+            "<svg xmlns=\"http://example.com/x\"><rect wh=\"5\" text=\"hi\"/></svg>",
+            "<svg>\n<svg xmlns=\"http://www.w3.org/2000/svg\"><rect width=\"3\" height=\"3\"/></svg>\n<rect wh=\"5\"/>\n</svg>",
+            "<svg xmlns=\"\"><rect wh=\"5\"/></svg>",
+        ];
+        if i < PAST.len() { doc = PAST[i].to_string(); st.tally("past-failure"); }
+        else if i % 8 == 3 {
+            let ns = *rng.pick(&["http://www.w3.org/2000/svg", "http://example.com/x", ""]);
+            doc = doc.replacen("<svg", &format!("<svg xmlns=\"{ns}\""), 1);
+            st.tally(&format!("root-xmlns={}", if ns.is_empty() { "empty" } else if ns.contains("w3") { "svg" } else { "foreign" }));
+        }
+        let mut c1 = random_cfg(&mut rng);
+        let mut c2 = random_cfg(&mut rng);
+        if i < PAST.len() { c1.debug = true; c2.debug = true; }
         let Ok(Ok(y)) = transform(&doc, &c1) else { st.skipped += 1; continue };
         st.case(&doc, true, || json!({"document": short(&doc), "c1": cfg_desc(&c1), "c2": cfg_desc(&c2)}));
         match transform(&y, &c2) {
